@@ -8,10 +8,10 @@ import (
 	"math"
 	"math/big"
 	"strconv"
+	"unicode"
+	"unicode/utf8"
 
 	"github.com/ohler55/slip"
-	"golang.org/x/text/cases"
-	"golang.org/x/text/language"
 )
 
 // - 0123456789abcdef0123456789abcdef
@@ -464,21 +464,47 @@ func (c *control) dirCase(colon, at bool, params []any) {
 	case colon && at:
 		c.out = append(c.out, bytes.ToUpper(c2.out)...)
 	case colon:
-		c2.out = bytes.ToLower(c2.out)
-		caser := cases.Title(language.English)
-		c.out = append(c.out, caser.Bytes(c2.out)...)
+		c.out = appendCapitalized(c.out, c2.out, false)
 	case at:
-		c2.out = bytes.ToLower(c2.out)
-		caser := cases.Title(language.English)
-		if i := bytes.Index(c2.out, []byte{' '}); 0 < i {
-			c.out = append(c.out, caser.Bytes(c2.out[:i])...)
-			c.out = append(c.out, c2.out[i:]...)
-		} else {
-			c.out = append(c.out, caser.Bytes(c2.out)...)
-		}
+		c.out = appendCapitalized(c.out, c2.out, true)
 	default:
 		c.out = append(c.out, bytes.ToLower(c2.out)...)
 	}
+}
+
+// appendCapitalized appends text to buf with each word capitalized as
+// string-capitalize is specified. A word is a run of alphanumeric characters,
+// the first character of a word is converted to upper case and the others to
+// lower case. If firstOnly is true then only the first word is capitalized and
+// all the rest of the text is converted to lower case.
+func appendCapitalized(buf, text []byte, firstOnly bool) []byte {
+	var (
+		inWord bool
+		done   bool
+	)
+	for i := 0; i < len(text); {
+		r, n := utf8.DecodeRune(text[i:])
+		if r == utf8.RuneError && n <= 1 {
+			buf = append(buf, text[i])
+			inWord = false
+			i++
+			continue
+		}
+		i += n
+		switch {
+		case !unicode.IsLetter(r) && !unicode.IsDigit(r):
+			inWord = false
+		case inWord || (firstOnly && done):
+			inWord = true
+			r = unicode.ToLower(r)
+		default:
+			inWord = true
+			done = true
+			r = unicode.ToUpper(r)
+		}
+		buf = utf8.AppendRune(buf, r)
+	}
+	return buf
 }
 
 func (c *control) dirMove(colon, at bool, params []any) {
